@@ -264,6 +264,7 @@ impl Check for C20 {
 
     fn run_unit(&self, tier: Tier, unit: &Value, out: &mut UnitResult) {
         for senders in sequences(tier.pick(3, 4)) {
+            crate::pool::crumb(|| format!("authorization layer, senders {senders:?}"));
             let n = senders.len();
             for po in permutations(n) {
                 for co in permutations(n) {
